@@ -117,17 +117,18 @@ func H_index(n int) {
 	verifAssert(undef == !(k == "a" || k == "b"), "Map.Key is Undefined for a present key or defined for an absent one")
 }
 
-// H_mapString: printing a map is the sorted "k: v" rendering under every iteration order.
+// H_mapString: printing a map is the sorted "k: v" rendering under every iteration order (keys
+// include a prefix pair and a pair that differs in letter case only).
 func H_mapString(order bool) {
 	a, b := verifString(1), verifString(1)
-	m := Map{"b": String(a), "a": Bool(verifBool()), "c": String(b), "ab": Undefined{}}
+	m := Map{"b": String(a), "a": Bool(verifBool()), "c": String(b), "ab": Undefined{}, "B": Int(7)}
 	if order {
 		verifMapOrder("func:String")
 	}
 	got := m.String()
 	verifMapOrder("")
 	verifObserve("got", got)
-	want := "{a: " + m["a"].String() + ", ab: undefined, b: " + a + ", c: " + b + "}"
+	want := "{B: 7, a: " + m["a"].String() + ", ab: undefined, b: " + a + ", c: " + b + "}"
 	verifAssert(got == want, "Map.String is not the sorted rendering")
 	l := List{String(a), Int(1), Null{}, m["a"]}
 	verifAssert(l.String() == "["+a+", 1, null, "+m["a"].String()+"]", "List.String")
